@@ -1,6 +1,1342 @@
-//! C16 — monitor not built yet.
-use crate::core::Ctx;
+//! C16 — cleartext signatures: text survives, framing is unspoofable, signature binds.
+//!
+//! For a text t:  m = sign(t);  doc = m.to_armored_string();  (m2, _) = from_string(doc).
+//!  (a) round trip: dash-unescaped m2.text() == t, signatures unchanged, every signature verifies
+//!      (1 and 2 signers, v4/v6 keys, SHA-256 / SHA-512 / SHA3-256);
+//!  (b) signed form: signed_text() == reference RFC 9580 section 7 form (dash-unescaped, trailing SP/TAB
+//!      of every line removed, CRLF) and the digest handed to the signing / verifying primitive is the
+//!      reference digest (rfc::sig) over exactly that form;
+//!  (c) framing: an independent CSF splitter + strict armor parser + packet deframer split the
+//!      emitted document into the same text and the same signature packets; every text line that
+//!      starts with '-' is dash-escaped;
+//!  (d) binding: edited documents (built with the reference dash-escaper around the original
+//!      signature block) verify iff the reference signed form of the edited text is unchanged.
+//!
+//! Signature scheme: `C16/<oracle>/<symptom>[/<api>][/<input-class>]`.
+
+use std::cell::RefCell;
+
+use pgp::composed::{
+    ArmorOptions, CleartextSignedMessage, SignedPublicKey, SignedSecretKey,
+};
+use pgp::crypto::hash::HashAlgorithm;
+use pgp::packet::{SignatureConfig, SignatureType, Subpacket, SubpacketData};
+use pgp::ser::Serialize;
+use pgp::types::{KeyDetails, KeyVersion, Password, Timestamp};
+use rand::seq::SliceRandom;
+use rand::{Rng, SeedableRng};
+use rand_chacha::ChaCha8Rng;
+use serde_json::{json, Value};
+
+use crate::core::{describe_case, hash64, hexs, Ctx};
+use crate::rec::{RecSigner, RecVerifier, SeenDigest};
+use crate::rfc;
+use crate::shim::{Sched, SchedReader};
+use crate::zoo;
+
+const BEGIN_SIG: &str = "-----BEGIN PGP SIGNATURE-----";
+const BEGIN_MSG: &str = "-----BEGIN PGP SIGNED MESSAGE-----";
+const END_SIG: &str = "-----END PGP SIGNATURE-----";
+
+/// token grammar of the property's quantifier
+const TOKENS: [&str; 14] = [
+    "", "-", "- ", "--", BEGIN_SIG, BEGIN_MSG, END_SIG, "Hash: SHA256", "From ", " ", "\t", "a",
+    "\u{e9}", "\u{2028}",
+];
+/// line separators: LF, CRLF, lone CR (which is *not* a line break: it stays inside the line)
+const SEPS: [&str; 3] = ["\n", "\r\n", "\r"];
+
+// ------------------------------------------------------------------------------------------
+// reference pieces local to this monitor (RFC 9580 section 7; never call into pgp)
+
+/// What a conforming reader gets out of the text section: the line ending in front of the
+/// signature armor (CRLF or bare LF) is not part of the text. `csf_parse` removes the LF (by
+/// splitting); a CR directly in front of it belongs to that line ending as well.
+fn strip_final_cr(s: &str) -> &str {
+    s.strip_suffix('\r').unwrap_or(s)
+}
+
+/// Is there a line whose content ends in SP / TAB (i.e. trimming changes the text)?
+fn has_trailing_blanks(t: &str) -> bool {
+    rfc::armor::csf_signed_form(t).as_bytes() != &rfc::canon_text(t.as_bytes())[..]
+}
+
+/// SP / TAB between a lone CR and the LF that ends the line ("a\r \n"): the RFC form of that line is
+/// its content with the blanks removed ("a\r") followed by CRLF. (The library's trimming glues the
+/// CR to the LF and reads the pair as the line ending; see the final report / known findings.)
+fn cr_blanks_lf(t: &str) -> bool {
+    let b = t.as_bytes();
+    let mut i = 0;
+    while i < b.len() {
+        if b[i] == b'\r' {
+            let mut j = i + 1;
+            while j < b.len() && (b[j] == b' ' || b[j] == b'\t') {
+                j += 1;
+            }
+            if j > i + 1 && j < b.len() && b[j] == b'\n' {
+                return true;
+            }
+        }
+        i += 1;
+    }
+    false
+}
+
+fn blank_class(t: &str) -> &'static str {
+    if cr_blanks_lf(t) {
+        "cr-blanks-lf"
+    } else if has_trailing_blanks(t) {
+        "trailing-blanks"
+    } else {
+        "no-trailing-blanks"
+    }
+}
+
+/// coverage classes of a text
+fn text_classes(t: &str) -> Vec<&'static str> {
+    let mut v = vec![];
+    if t.is_empty() {
+        v.push("empty");
+    }
+    if t.ends_with('\r') {
+        v.push("ends-in-lone-CR");
+    }
+    if t.ends_with('\n') {
+        v.push("final-newline");
+    } else {
+        v.push("no-final-newline");
+    }
+    if has_trailing_blanks(t) {
+        v.push("trailing-blanks");
+    }
+    if cr_blanks_lf(t) {
+        v.push("cr-blanks-lf");
+    }
+    if t.contains("\r\n") {
+        v.push("crlf");
+    }
+    let b = t.as_bytes();
+    if (0..b.len()).any(|i| b[i] == b'\n' && (i == 0 || b[i - 1] != b'\r')) {
+        v.push("bare-lf");
+    }
+    if (0..b.len()).any(|i| b[i] == b'\r' && i + 1 < b.len() && b[i + 1] != b'\n') {
+        v.push("lone-CR-inside");
+    }
+    for l in t.split('\n') {
+        if l.starts_with('-') {
+            v.push("dash-line");
+        }
+        if l.starts_with("-----") {
+            v.push("armor-boundary-line");
+        }
+        if l.starts_with(BEGIN_SIG) {
+            v.push("begin-signature-line");
+        }
+        if l.starts_with("- ") {
+            v.push("looks-escaped-line");
+        }
+        if l.starts_with("From ") {
+            v.push("from-line");
+        }
+        if l.starts_with("Hash: ") {
+            v.push("hash-header-line");
+        }
+        if l.is_empty() || l == "\r" {
+            v.push("empty-line");
+        }
+    }
+    if t.starts_with('\n') || t.starts_with("\r\n") || t.starts_with(' ') || t.starts_with('\t') {
+        v.push("blank-first-line");
+    }
+    if !t.is_ascii() {
+        v.push("multi-byte");
+    }
+    if t.contains("\r-") {
+        v.push("dash-after-lone-CR");
+    }
+    v.sort_unstable();
+    v.dedup();
+    v
+}
+
+// ------------------------------------------------------------------------------------------
+// signer configurations
+
+#[derive(Clone, Copy, PartialEq, Eq, Debug)]
+enum Api {
+    New,
+    Sign,
+    NewMany,
+}
+
+impl Api {
+    fn name(self) -> &'static str {
+        match self {
+            Api::New => "new",
+            Api::Sign => "sign",
+            Api::NewMany => "new_many",
+        }
+    }
+}
+
+struct Cfg {
+    name: &'static str,
+    api: Api,
+    /// (key index, hash)
+    signers: Vec<(usize, HashAlgorithm)>,
+}
+
+struct Env {
+    sk: Vec<SignedSecretKey>,
+    pk: Vec<SignedPublicKey>,
+    cfgs: Vec<Cfg>,
+}
+
+const K4: usize = 0; // v4 Ed25519Legacy
+const K6: usize = 1; // v6 Ed25519
+const KP: usize = 2; // v4 ECDSA P-256
+
+impl Env {
+    fn new() -> Env {
+        let sk = vec![
+            zoo::key(&zoo::Spec::simple(false, zoo::Alg::Ed25519Legacy, None), 0),
+            zoo::key(&zoo::Spec::simple(true, zoo::Alg::Ed25519, None), 0),
+            zoo::key(&zoo::Spec::simple(false, zoo::Alg::EcdsaP256, None), 0),
+        ];
+        let pk = sk.iter().map(|k| k.to_public_key()).collect();
+        let cfgs = vec![
+            Cfg { name: "new/v4-ed25519legacy-sha256", api: Api::New, signers: vec![(K4, HashAlgorithm::Sha256)] },
+            Cfg { name: "new/v6-ed25519-sha512", api: Api::New, signers: vec![(K6, HashAlgorithm::Sha512)] },
+            Cfg { name: "new/v4-ecdsa-p256-sha3-256", api: Api::New, signers: vec![(KP, HashAlgorithm::Sha3_256)] },
+            Cfg { name: "sign/v6-ed25519-default", api: Api::Sign, signers: vec![(K6, HashAlgorithm::Sha512)] },
+            Cfg { name: "sign/v4-ed25519legacy-default", api: Api::Sign, signers: vec![(K4, HashAlgorithm::Sha256)] },
+            Cfg {
+                name: "new_many/v4-ed25519legacy-sha512+v6-ed25519-sha3-256",
+                api: Api::NewMany,
+                signers: vec![(K4, HashAlgorithm::Sha512), (K6, HashAlgorithm::Sha3_256)],
+            },
+            Cfg {
+                name: "new_many/v4-ecdsa-p256-sha256+v4-ed25519legacy-sha256",
+                api: Api::NewMany,
+                signers: vec![(KP, HashAlgorithm::Sha256), (K4, HashAlgorithm::Sha256)],
+            },
+        ];
+        Env { sk, pk, cfgs }
+    }
+
+    fn config(&self, key: usize, hash: HashAlgorithm, rng: &mut ChaCha8Rng) -> pgp::errors::Result<SignatureConfig> {
+        let k = &self.sk[key].primary_key;
+        let mut c = match k.version() {
+            KeyVersion::V6 => SignatureConfig::v6(rng, SignatureType::Text, k.algorithm(), hash)?,
+            _ => SignatureConfig::v4(SignatureType::Text, k.algorithm(), hash),
+        };
+        c.hashed_subpackets = vec![
+            Subpacket::regular(SubpacketData::SignatureCreationTime(Timestamp::from_secs(1_700_000_000)))?,
+            Subpacket::regular(SubpacketData::IssuerFingerprint(k.fingerprint()))?,
+        ];
+        if k.version() != KeyVersion::V6 {
+            c.unhashed_subpackets = vec![Subpacket::regular(SubpacketData::IssuerKeyId(k.legacy_key_id()))?];
+        }
+        Ok(c)
+    }
+}
+
+struct Built {
+    msg: CleartextSignedMessage,
+    /// digests the signing primitive was handed, per signer
+    sign_digests: Vec<Vec<SeenDigest>>,
+    /// text handed to the `new_many` closure
+    closure_text: Option<String>,
+}
+
+fn build(env: &Env, cfg: &Cfg, dry: bool, t: &str, mut rng: ChaCha8Rng) -> pgp::errors::Result<Built> {
+    let signers: Vec<RecSigner> = cfg
+        .signers
+        .iter()
+        .map(|(k, _)| {
+            if dry {
+                RecSigner::dry(&env.sk[*k].primary_key)
+            } else {
+                RecSigner::new(&env.sk[*k].primary_key)
+            }
+        })
+        .collect();
+    let pw = Password::empty();
+    let closure_text = RefCell::new(None);
+    let msg = match cfg.api {
+        Api::New => {
+            let (k, h) = cfg.signers[0];
+            let c = env.config(k, h, &mut rng)?;
+            CleartextSignedMessage::new(t, c, &signers[0], &pw)?
+        }
+        Api::Sign => CleartextSignedMessage::sign(&mut rng, t, &signers[0], &pw)?,
+        Api::NewMany => CleartextSignedMessage::new_many(t, |txt| {
+            *closure_text.borrow_mut() = Some(txt.to_string());
+            let mut out = vec![];
+            for (i, (k, h)) in cfg.signers.iter().enumerate() {
+                let c = env.config(*k, *h, &mut rng)?;
+                out.push(c.sign(&signers[i], &pw, txt.as_bytes())?);
+            }
+            Ok(out)
+        })?,
+    };
+    Ok(Built {
+        msg,
+        sign_digests: signers.iter().map(|s| s.take()).collect(),
+        closure_text: closure_text.into_inner(),
+    })
+}
+
+/// Per signature: (verify returned Ok, digest handed to the primitive). In dry mode the
+/// public-key operation is skipped (the signature value is a dummy); "verifies" then means:
+/// `Signature::verify` returned Ok (left16 check passed) *and* the digest equals the reference digest.
+struct Verdicts {
+    ok: Vec<bool>,
+    digests: Vec<Option<Vec<u8>>>,
+}
+
+fn verify_each(env: &Env, cfg: &Cfg, dry: bool, m: &CleartextSignedMessage) -> Verdicts {
+    let res: RefCell<Vec<(bool, Option<Vec<u8>>)>> = RefCell::new(vec![]);
+    let _ = m.verify_many(|i, sig, data| {
+        let Some((k, _)) = cfg.signers.get(i) else {
+            res.borrow_mut().push((false, None));
+            return Ok(());
+        };
+        let ver = RecVerifier { inner: &env.pk[*k].primary_key, seen: Default::default(), accept_all: dry };
+        let r = sig.verify(&ver, data);
+        let seen = ver.take();
+        res.borrow_mut().push((r.is_ok(), seen.last().map(|s| s.digest.clone())));
+        Ok(())
+    });
+    let r = res.into_inner();
+    Verdicts { ok: r.iter().map(|x| x.0).collect(), digests: r.into_iter().map(|x| x.1).collect() }
+}
+
+/// all signatures verify (against `wants`, the reference digests)
+fn all_verify(v: &Verdicts, wants: &[Vec<u8>]) -> bool {
+    v.ok.len() == wants.len()
+        && v.ok.iter().all(|b| *b)
+        && v.digests.iter().zip(wants).all(|(d, w)| d.as_deref() == Some(&w[..]))
+}
+
+/// no signature verifies against the original digest
+fn none_verify(v: &Verdicts, wants: &[Vec<u8>]) -> bool {
+    !(0..v.ok.len()).any(|i| v.ok[i] && (v.digests[i].is_none() || v.digests[i].as_deref() == wants.get(i).map(|w| &w[..])))
+}
+
+// ------------------------------------------------------------------------------------------
+// edits for the binding oracle
+
+fn replace_char(c: char) -> char {
+    if c == 'x' {
+        'y'
+    } else {
+        'x'
+    }
+}
+
+/// (kind, edited text)
+fn text_edits(t: &str, rng: &mut ChaCha8Rng, max_pos: usize) -> Vec<(&'static str, String)> {
+    let chars: Vec<char> = t.chars().collect();
+    let n = chars.len();
+    let mut out: Vec<(&'static str, String)> = vec![];
+    let mut positions: Vec<usize> = (0..n).collect();
+    if n > max_pos {
+        positions.shuffle(rng);
+        positions.truncate(max_pos.saturating_sub(2));
+        positions.push(0);
+        positions.push(n - 1);
+        positions.sort_unstable();
+        positions.dedup();
+    }
+    let join = |a: &[char], mid: &str, b: &[char]| -> String {
+        let mut s: String = a.iter().collect();
+        s.push_str(mid);
+        s.extend(b.iter());
+        s
+    };
+    for &p in &positions {
+        out.push(("change-char", join(&chars[..p], &replace_char(chars[p]).to_string(), &chars[p + 1..])));
+        out.push(("delete-char", join(&chars[..p], "", &chars[p + 1..])));
+        out.push(("insert-char", join(&chars[..p], "x", &chars[p..])));
+        out.push(("insert-blank", join(&chars[..p], if p % 2 == 0 { " " } else { "\t" }, &chars[p..])));
+    }
+    out.push(("insert-char", format!("{t}x")));
+    out.push(("insert-blank", format!("{t} ")));
+    out.push(("insert-blank", format!("{t}\t")));
+    out.push(("insert-dash", format!("-{t}")));
+
+    let lines: Vec<&str> = t.split('\n').collect();
+    let nl = lines.len();
+    for i in 0..nl.saturating_sub(1) {
+        if lines[i] != lines[i + 1] {
+            let mut l = lines.clone();
+            l.swap(i, i + 1);
+            out.push(("swap-lines", l.join("\n")));
+        }
+    }
+    out.push(("add-line", format!("{t}\nx")));
+    out.push(("add-line", format!("x\n{t}")));
+    out.push(("add-line", format!("{t}\n")));
+    out.push(("add-line", format!("\n{t}")));
+    out.push(("add-line", format!("{t}\n{BEGIN_SIG}")));
+    if nl >= 2 {
+        let mut l = lines.clone();
+        l.insert(1, "x");
+        out.push(("add-line", l.join("\n")));
+        for i in [0, nl - 1] {
+            let mut l = lines.clone();
+            l.remove(i);
+            out.push(("delete-line", l.join("\n")));
+        }
+    }
+    {
+        let mut l = lines.clone();
+        l.insert(0, lines[0]);
+        out.push(("duplicate-line", l.join("\n")));
+    }
+    // edits that only touch trailing blanks / line-ending representation
+    let per_line = |f: &dyn Fn(&str) -> String| -> String {
+        let mut o = String::new();
+        for (i, l) in lines.iter().enumerate() {
+            let last = i == nl - 1;
+            let (content, cr) = if !last && l.ends_with('\r') { (&l[..l.len() - 1], "\r") } else { (*l, "") };
+            o.push_str(&f(content));
+            o.push_str(cr);
+            if !last {
+                o.push('\n');
+            }
+        }
+        o
+    };
+    out.push(("add-trailing-blanks", per_line(&|c| format!("{c} "))));
+    out.push(("add-trailing-blanks", per_line(&|c| format!("{c}\t"))));
+    out.push(("add-trailing-blanks", per_line(&|c| format!("{c} \t  "))));
+    out.push(("strip-trailing-blanks", per_line(&|c| c.trim_end_matches([' ', '\t']).to_string())));
+    out.push(("text-lf-to-crlf", String::from_utf8(rfc::canon_text(t.as_bytes())).expect("utf8")));
+    out.push(("text-crlf-to-lf", t.replace("\r\n", "\n")));
+    out.retain(|(_, e)| e != t);
+    out
+}
+
+// ------------------------------------------------------------------------------------------
+// the per-text check
+
+#[derive(Clone, Copy)]
+struct Opt {
+    dry: bool,
+    /// number of character positions edited for the binding oracle (0 = no binding check)
+    edit_positions: usize,
+    /// exercise from_armor (reader paths) and non-default armor options
+    api_variants: bool,
+    /// count the text itself as a distinct case (A4 counts groups instead)
+    cover: bool,
+}
+
+fn dbg_str(s: &str) -> String {
+    let mut o: String = format!("{s:?}");
+    if o.len() > 300 {
+        let mut n = 300;
+        while !o.is_char_boundary(n) {
+            n -= 1;
+        }
+        o.truncate(n);
+        o.push_str("...");
+    }
+    o
+}
+
+fn check_text(ctx: &mut Ctx, env: &Env, family: &str, t: &str, cfg_idx: usize, opt: Opt) {
+    let cfg = &env.cfgs[cfg_idx];
+    let api = cfg.api.name();
+    let replay = || -> Value {
+        json!({"family": family, "t": hexs(t.as_bytes()), "t_str": dbg_str(t), "cfg": cfg.name, "dry": opt.dry})
+    };
+    let bclass = blank_class(t);
+    let cr_class = t.ends_with('\r');
+    let signed_ref = rfc::armor::csf_signed_form(t);
+    if opt.cover {
+        ctx.cover(&("text", t));
+    }
+    ctx.seen("cfg", format!("{}{}", cfg.name, if opt.dry { "/recorded-digest" } else { "/real-crypto" }));
+    for c in text_classes(t) {
+        ctx.seen("text-class", c);
+    }
+    ctx.tally(if opt.dry { "texts.recorded-digest" } else { "texts.real-crypto" }, 1);
+
+    // ---- sign
+    let rng = ChaCha8Rng::seed_from_u64(hash64(&(ctx.seed, "c16sig", t, cfg_idx)));
+    let Some(b) = ctx.guarded("C16/sign", replay, || build(env, cfg, opt.dry, t, rng)) else { return };
+    ctx.eval();
+    let b = match b {
+        Ok(b) => b,
+        Err(e) => {
+            ctx.violation(format!("C16/sign/error/{api}"), format!("signing {} failed: {e}", dbg_str(t)), replay());
+            return;
+        }
+    };
+    let m = &b.msg;
+    if m.signatures().len() != cfg.signers.len() {
+        ctx.violation(
+            format!("C16/sign/signature-count/{api}"),
+            format!("{} signatures for {} signers", m.signatures().len(), cfg.signers.len()),
+            replay(),
+        );
+        return;
+    }
+
+    // reference digests of the RFC signed form, per signature
+    let mut wants: Vec<Vec<u8>> = vec![];
+    let mut sig_bodies: Vec<Vec<u8>> = vec![];
+    for sig in m.signatures() {
+        let body = match sig.to_bytes() {
+            Ok(b) => b,
+            Err(e) => {
+                ctx.inconclusive(format!("signature does not serialise: {e}"));
+                return;
+            }
+        };
+        let rs = match rfc::sig::parse_sig(&body) {
+            Ok(r) => r,
+            Err(e) => {
+                ctx.inconclusive(format!("reference cannot parse signature: {e}"));
+                return;
+            }
+        };
+        if rs.typ != 1 {
+            ctx.violation(
+                format!("C16/signed-form/signature-type-not-text/{api}"),
+                format!("cleartext signature has type {:#x}, RFC 9580 7 requires 0x01", rs.typ),
+                replay(),
+            );
+            return;
+        }
+        let Some(w) = rs.digest_over(&[signed_ref.as_bytes()]) else {
+            ctx.inconclusive("reference has no such hash");
+            return;
+        };
+        ctx.seen("sig-version/hash", format!("v{}/hash{}", rs.version, rs.hash_alg));
+        wants.push(w);
+        sig_bodies.push(body);
+    }
+
+    // ---- (b) signed form before armoring
+    let st = m.signed_text();
+    ctx.eval();
+    // a text of the cr-blanks-lf class whose signed form is wrong is reported once, here; the
+    // digest / verify / binding oracles all presuppose the signed form and are skipped for it
+    let form_defect = st != signed_ref && cr_blanks_lf(t);
+    if form_defect {
+        ctx.violation(
+            "C16/signed-form/signed_text-mismatch/cr-blanks-lf",
+            format!("signed_text() = {} but RFC form is {} for t = {}", dbg_str(&st), dbg_str(&signed_ref), dbg_str(t)),
+            replay(),
+        );
+    } else if st != signed_ref {
+        ctx.violation(
+            format!("C16/signed-form/signed_text-mismatch/{api}/{bclass}"),
+            format!("signed_text() = {} but RFC form is {} for t = {}", dbg_str(&st), dbg_str(&signed_ref), dbg_str(t)),
+            replay(),
+        );
+    }
+    if cfg.api != Api::NewMany && !form_defect {
+        for (i, seen) in b.sign_digests.iter().enumerate() {
+            if seen.len() != 1 || seen[0].digest != wants[i] {
+                ctx.violation(
+                    format!("C16/signed-form/signer-digest-mismatch/{api}/{bclass}"),
+                    format!(
+                        "digest handed to the signing key is not the RFC digest over the signed form {} of t = {}",
+                        dbg_str(&signed_ref),
+                        dbg_str(t)
+                    ),
+                    replay(),
+                );
+            }
+        }
+    }
+    // dash escaping of the in-memory form
+    match unescape(m.text()) {
+        Ok(u) if u == t => {}
+        Ok(u) => ctx.violation(
+            format!("C16/escape/text-changed/{api}"),
+            format!("text() of the fresh message unescapes to {} for t = {}", dbg_str(&u), dbg_str(t)),
+            replay(),
+        ),
+        Err(l) => ctx.violation(
+            format!("C16/escape/unescaped-dash-line/{api}"),
+            format!("text() has line {} starting with '-' without \"- \" for t = {}", dbg_str(&l), dbg_str(t)),
+            replay(),
+        ),
+    }
+
+    // ---- verify before armoring
+    let Some(v0) = ctx.guarded("C16/verify", replay, || verify_each(env, cfg, opt.dry, m)) else { return };
+    ctx.evals_add(cfg.signers.len() as u64);
+    let pre_ok = all_verify(&v0, &wants);
+    if form_defect {
+        ctx.tally("cr-blanks-lf.crypto-oracles-skipped", 1);
+    } else if !pre_ok {
+        ctx.violation(
+            format!("C16/verify/rejected-before-armor/{api}/{bclass}"),
+            format!(
+                "fresh message does not verify (per signature ok={:?}); t = {}; RFC signed form {}; text given to new_many signer: {}",
+                v0.ok,
+                dbg_str(t),
+                dbg_str(&signed_ref),
+                b.closure_text.as_deref().map(dbg_str).unwrap_or_else(|| "-".into())
+            ),
+            replay(),
+        );
+    } else if let Some(ct) = &b.closure_text {
+        if *ct != signed_ref {
+            ctx.violation(
+                format!("C16/signed-form/new_many-signer-text-mismatch/{bclass}"),
+                format!("new_many handed {} to the signer, RFC signed form is {}", dbg_str(ct), dbg_str(&signed_ref)),
+                replay(),
+            );
+        }
+    }
+    if !opt.dry && !form_defect {
+        // the single-key entry point must agree
+        for (i, (k, _)) in cfg.signers.iter().enumerate() {
+            let r = ctx.guarded("C16/verify", replay, || m.verify(&env.pk[*k].primary_key).is_ok());
+            ctx.eval();
+            if let Some(r) = r {
+                if r != v0.ok[i] {
+                    ctx.violation(
+                        format!("C16/verify/verify-vs-verify_many-disagree/{api}"),
+                        format!("verify(key {i}) = {r}, verify_many = {}", v0.ok[i]),
+                        replay(),
+                    );
+                }
+            }
+        }
+    }
+
+    // ---- armor
+    let Some(doc) = ctx.guarded("C16/armor", replay, || m.to_armored_string(ArmorOptions::default())) else { return };
+    ctx.eval();
+    let doc = match doc {
+        Ok(d) => d,
+        Err(e) => {
+            ctx.violation(format!("C16/armor/error/{api}"), format!("to_armored_string failed: {e}"), replay());
+            return;
+        }
+    };
+
+    // ---- (c) framing, judged by the independent splitter
+    let parsed = match rfc::armor::csf_parse(&doc) {
+        Ok(p) => p,
+        Err(e) => {
+            let class = if e.starts_with("text section terminated") {
+                "text-terminated-early"
+            } else if e.starts_with("unescaped dash line") {
+                "unescaped-dash-line"
+            } else {
+                "malformed-document"
+            };
+            ctx.violation(
+                format!("C16/framing/reference-rejects/{class}"),
+                format!("a conforming splitter cannot read the emitted document: {e}; t = {}", dbg_str(t)),
+                replay(),
+            );
+            return;
+        }
+    };
+    let ref_text = strip_final_cr(&parsed.text).to_string();
+    let expect_rt: &str = if cr_class { &t[..t.len() - 1] } else { t };
+    if ref_text != expect_rt {
+        ctx.violation(
+            "C16/framing/reference-reads-other-text",
+            format!("a conforming splitter reads {} from the document emitted for t = {}", dbg_str(&ref_text), dbg_str(t)),
+            replay(),
+        );
+    }
+    // the signature block: strict armor, packets = the signatures, nothing else
+    match rfc::armor::armor_parse_strict(&parsed.sig_armor) {
+        Err(e) => ctx.violation(
+            "C16/framing/signature-armor-malformed",
+            format!("strict armor parser rejects the signature block: {e}; t = {}", dbg_str(t)),
+            replay(),
+        ),
+        Ok(pa) => {
+            let mut why = None;
+            if pa.typ != "PGP SIGNATURE" {
+                why = Some(format!("armor type {:?}", pa.typ));
+            } else if !pa.rest.trim().is_empty() {
+                why = Some(format!("data after the signature block: {:?}", pa.rest));
+            } else if pa.crc.is_some_and(|c| c != rfc::armor::crc24(&pa.data)) {
+                why = Some("CRC-24 wrong".into());
+            } else {
+                match rfc::frame::deframe(&pa.data) {
+                    Err(e) => why = Some(format!("packet framing: {e}")),
+                    Ok(pk) => {
+                        if pk.len() != sig_bodies.len()
+                            || pk.iter().zip(&sig_bodies).any(|(p, b)| p.tag != 2 || p.body != *b)
+                        {
+                            why = Some(format!(
+                                "packets in the block (tags {:?}) are not the message's signatures",
+                                pk.iter().map(|p| p.tag).collect::<Vec<_>>()
+                            ));
+                        }
+                    }
+                }
+            }
+            if let Some(w) = why {
+                ctx.violation("C16/framing/signature-block-differs", format!("{w}; t = {}", dbg_str(t)), replay());
+            }
+        }
+    }
+    for sig in m.signatures() {
+        if let Some(h) = sig.hash_alg() {
+            if !parsed.hashes.iter().any(|x| x.eq_ignore_ascii_case(&h.to_string())) {
+                ctx.tally("hash-header-missing-for-signature", 1);
+            }
+        }
+    }
+
+    // ---- (a) read back
+    let Some(r2) = ctx.guarded("C16/parse", replay, || CleartextSignedMessage::from_string(&doc)) else { return };
+    ctx.eval();
+    let (m2, hdrs) = match r2 {
+        Ok(x) => x,
+        Err(e) => {
+            ctx.violation(
+                format!("C16/roundtrip/parse-error/{}", if cr_class { "trailing-lone-CR" } else { "other" }),
+                format!("from_string rejects the emitted document: {e}; t = {}", dbg_str(t)),
+                replay(),
+            );
+            return;
+        }
+    };
+    if !hdrs.is_empty() {
+        ctx.violation("C16/roundtrip/unexpected-armor-headers", format!("headers {hdrs:?}"), replay());
+    }
+    let rt = match unescape(m2.text()) {
+        Ok(u) => u,
+        Err(l) => {
+            ctx.violation(
+                "C16/roundtrip/unescaped-dash-line",
+                format!("text() after the round trip has line {} starting with '-' without \"- \"; t = {}", dbg_str(&l), dbg_str(t)),
+                replay(),
+            );
+            return;
+        }
+    };
+    if rt != ref_text {
+        ctx.violation(
+            "C16/framing/split-differs",
+            format!(
+                "library reads {} but a conforming splitter reads {} from the same document; t = {}",
+                dbg_str(&rt),
+                dbg_str(&ref_text),
+                dbg_str(t)
+            ),
+            replay(),
+        );
+    }
+    if m2.signatures() != m.signatures() {
+        ctx.violation("C16/roundtrip/signatures-changed", format!("signatures differ after the round trip; t = {}", dbg_str(t)), replay());
+        return;
+    }
+    let Some(v2) = ctx.guarded("C16/verify", replay, || verify_each(env, cfg, opt.dry, &m2)) else { return };
+    ctx.evals_add(cfg.signers.len() as u64);
+    let post_ok = all_verify(&v2, &wants);
+    let st2 = m2.signed_text();
+    if rt != t {
+        if cr_class && rt == t[..t.len() - 1] {
+            ctx.violation(
+                "C16/roundtrip/text-changed/trailing-lone-CR",
+                format!(
+                    "text ending in a lone CR comes back without it: t = {} -> {}; signature verifies after the round trip: {}",
+                    dbg_str(t),
+                    dbg_str(&rt),
+                    post_ok
+                ),
+                replay(),
+            );
+            ctx.tally(if post_ok { "trailing-lone-CR.verifies-after-roundtrip" } else { "trailing-lone-CR.rejected-after-roundtrip" }, 1);
+            // the text that was read is a different one: its signature must not verify
+            if pre_ok && !none_verify(&v2, &wants) {
+                ctx.violation(
+                    "C16/binding/changed-text-accepted/roundtrip-trailing-lone-CR",
+                    format!("text changed by the round trip ({} -> {}) still verifies", dbg_str(t), dbg_str(&rt)),
+                    replay(),
+                );
+            }
+        } else {
+            ctx.violation(
+                "C16/roundtrip/text-changed/other",
+                format!("t = {} comes back as {}", dbg_str(t), dbg_str(&rt)),
+                replay(),
+            );
+        }
+    } else if !form_defect {
+        if st2 != signed_ref {
+            ctx.violation(
+                format!("C16/signed-form/signed_text-mismatch-after-roundtrip/{bclass}"),
+                format!("signed_text() = {} but RFC form is {} for t = {}", dbg_str(&st2), dbg_str(&signed_ref), dbg_str(t)),
+                replay(),
+            );
+        }
+        if pre_ok && !post_ok {
+            ctx.violation(
+                format!("C16/verify/rejected/{api}/{bclass}"),
+                format!("message verified before armoring but not after reading it back (per signature ok={:?}); t = {}", v2.ok, dbg_str(t)),
+                replay(),
+            );
+        }
+        if pre_ok && post_ok {
+            ctx.tally("roundtrip.verified", 1);
+        }
+    }
+    if !opt.dry && rt == t && !form_defect {
+        for (i, (k, _)) in cfg.signers.iter().enumerate() {
+            let r = ctx.guarded("C16/verify", replay, || m2.verify(&env.pk[*k].primary_key).is_ok());
+            ctx.eval();
+            if let Some(r) = r {
+                if r != v2.ok[i] {
+                    ctx.violation(
+                        format!("C16/verify/verify-vs-verify_many-disagree/{api}"),
+                        format!("after round trip verify(key {i}) = {r}, verify_many = {}", v2.ok[i]),
+                        replay(),
+                    );
+                }
+            }
+        }
+    }
+
+    // ---- API variants: reader entry points, armor options
+    if opt.api_variants {
+        api_variants(ctx, env, family, t, cfg_idx, opt, m, &doc, &m2);
+    }
+
+    // ---- (d) binding
+    if opt.edit_positions == 0 || form_defect {
+        return;
+    }
+    if !pre_ok {
+        // the signature is not over the RFC form (reported above): nothing to bind to
+        ctx.tally("binding.skipped-signature-unsound", 1);
+        return;
+    }
+    let head_len = doc.len() - (parsed.escaped_text.len() + 1 + parsed.sig_armor.len());
+    let head = &doc[..head_len];
+    if format!("{head}{}\n{}", parsed.escaped_text, parsed.sig_armor) != doc {
+        ctx.inconclusive("harness: cannot re-assemble the document from the reference split");
+        return;
+    }
+    let mut erng = ChaCha8Rng::seed_from_u64(hash64(&(ctx.seed, "c16edit", t)));
+    let mut docs: Vec<(&'static str, String, String)> = text_edits(t, &mut erng, opt.edit_positions)
+        .into_iter()
+        .map(|(k, e)| {
+            let d = format!("{head}{}\n{}", rfc::armor::dash_escape(&e), parsed.sig_armor);
+            (k, e, d)
+        })
+        .collect();
+    // raw edits of the document (not re-escaped): a '-' put in front of a text line. A reader strips
+    // "- " and nothing else (RFC 9580 7.2), so the line reads as another one.
+    {
+        let elines: Vec<&str> = parsed.escaped_text.split('\n').collect();
+        for i in 0..elines.len().min(4) {
+            let raw = format!("-{}", elines[i]);
+            if raw.starts_with("-----") {
+                continue; // would be an armor boundary, not a text line
+            }
+            let mut l: Vec<String> = elines.iter().map(|x| x.to_string()).collect();
+            l[i] = raw;
+            let text: Vec<&str> = l.iter().map(|x| x.strip_prefix("- ").unwrap_or(x)).collect();
+            docs.push(("raw-dash-insert", text.join("\n"), format!("{head}{}\n{}", l.join("\n"), parsed.sig_armor)));
+        }
+    }
+    // whole-document line ending conversions; what text they denote is decided by the reference splitter
+    for (k, d) in [
+        ("doc-lf-to-crlf", String::from_utf8(rfc::canon_text(doc.as_bytes())).expect("utf8")),
+        ("doc-crlf-to-lf", doc.replace("\r\n", "\n")),
+    ] {
+        match rfc::armor::csf_parse(&d) {
+            Ok(p) => docs.push((k, p.text, d)),
+            Err(e) => ctx.inconclusive(format!("harness: reference cannot split a converted document: {e}")),
+        }
+    }
+    for (kind, etext, edoc) in docs {
+        // text a conforming reader sees, and its signed form
+        let eff = strip_final_cr(&etext);
+        let same = rfc::armor::csf_signed_form(eff) == signed_ref;
+        // input class of the *edited* text decides the class in the signature
+        let kind_sig = if cr_blanks_lf(eff) { "cr-blanks-lf" } else { kind };
+        if edoc == doc && same == post_ok {
+            continue;
+        }
+        let ereplay = || -> Value {
+            let mut r = replay();
+            r["edit"] = json!(kind);
+            r["edited_doc"] = json!(hexs(edoc.as_bytes()));
+            r
+        };
+        let Some(r) = ctx.guarded("C16/binding", ereplay, || {
+            CleartextSignedMessage::from_string(&edoc).map(|(me, _)| {
+                let v = verify_each(env, cfg, opt.dry, &me);
+                (me.signatures().len(), v)
+            })
+        }) else {
+            continue;
+        };
+        ctx.eval();
+        ctx.seen("edit", format!("{kind}:{}", if same { "must-verify" } else { "must-fail" }));
+        ctx.tally(if same { "binding.edits.must-verify" } else { "binding.edits.must-fail" }, 1);
+        match r {
+            Err(e) => {
+                if same {
+                    ctx.violation(
+                        format!("C16/binding/equivalent-edit-rejected/{kind_sig}"),
+                        format!(
+                            "document whose text {} has the same signed form as t = {} is rejected by from_string: {e}",
+                            dbg_str(&etext),
+                            dbg_str(t)
+                        ),
+                        ereplay(),
+                    );
+                }
+            }
+            Ok((nsig, v)) => {
+                if same && !(nsig == wants.len() && all_verify(&v, &wants)) {
+                    ctx.violation(
+                        format!("C16/binding/equivalent-edit-rejected/{kind_sig}"),
+                        format!(
+                            "edit outside the signed form makes verification fail (ok={:?}): {} -> {} (signed form {})",
+                            v.ok,
+                            dbg_str(t),
+                            dbg_str(&etext),
+                            dbg_str(&signed_ref)
+                        ),
+                        ereplay(),
+                    );
+                }
+                if !same && !none_verify(&v, &wants) {
+                    ctx.violation(
+                        format!("C16/binding/changed-text-accepted/{kind_sig}"),
+                        format!(
+                            "edit that changes the signed form still verifies: {} -> {} (signed forms {} vs {})",
+                            dbg_str(t),
+                            dbg_str(&etext),
+                            dbg_str(&signed_ref),
+                            dbg_str(&rfc::armor::csf_signed_form(eff))
+                        ),
+                        ereplay(),
+                    );
+                }
+            }
+        }
+    }
+}
+
+/// Reference dash-unescape: per LF-separated line strip one leading "- ". Err(line) for a line
+/// that starts with '-' but is not escaped (a MUST of RFC 9580 7.2 for the writer).
+fn unescape(s: &str) -> Result<String, String> {
+    let mut out = String::with_capacity(s.len());
+    for (i, l) in s.split('\n').enumerate() {
+        if i > 0 {
+            out.push('\n');
+        }
+        if let Some(r) = l.strip_prefix("- ") {
+            out.push_str(r);
+        } else if l.starts_with('-') {
+            return Err(l.to_string());
+        } else {
+            out.push_str(l);
+        }
+    }
+    Ok(out)
+}
+
+#[allow(clippy::too_many_arguments)]
+fn api_variants(
+    ctx: &mut Ctx,
+    env: &Env,
+    family: &str,
+    t: &str,
+    cfg_idx: usize,
+    opt: Opt,
+    m: &CleartextSignedMessage,
+    doc: &str,
+    m2: &CleartextSignedMessage,
+) {
+    let _ = env;
+    let cfg = &env.cfgs[cfg_idx];
+    let replay = || -> Value {
+        json!({"family": family, "t": hexs(t.as_bytes()), "t_str": dbg_str(t), "cfg": cfg.name, "dry": opt.dry, "variant": true})
+    };
+    // from_armor over readers with different schedules must read what from_string reads
+    for sched in [Sched::All, Sched::Fixed(1), Sched::Cycle(vec![3, 1, 64]), Sched::Random(hash64(&t), 40)] {
+        let name = sched.name();
+        let r = ctx.guarded("C16/parse", replay, || {
+            CleartextSignedMessage::from_armor(SchedReader::new(doc.as_bytes().to_vec(), sched.clone()))
+        });
+        ctx.eval();
+        let sname = match sched {
+            Sched::All => "all",
+            Sched::Fixed(_) => "fixed1",
+            Sched::Cycle(_) => "cycle3-1-64",
+            _ => "random<=40",
+        };
+        ctx.seen("reader-schedule", sname);
+        match r {
+            None => {}
+            Some(Err(e)) => {
+                ctx.tally(&format!("from_armor-rejects.schedule-{sname}"), 1);
+                ctx.violation(
+                format!("C16/roundtrip/from_armor-rejects/{}", if matches!(sched, Sched::All) { "full-reads" } else { "short-reads" }),
+                format!("from_armor (source schedule {name}) rejects a document from_string accepts: {e}; t = {}", dbg_str(t)),
+                replay(),
+            )},
+            Some(Ok((m3, _))) => {
+                if m3 != *m2 {
+                    ctx.violation(
+                        "C16/roundtrip/from_armor-differs",
+                        format!("from_armor (source schedule {name}) reads another message than from_string; t = {}", dbg_str(t)),
+                        replay(),
+                    );
+                }
+            }
+        }
+    }
+    // armor headers on the signature block, no checksum; written through to_armored_writer
+    let mut h = pgp::armor::Headers::new();
+    h.insert("Comment".to_string(), vec!["-----BEGIN PGP SIGNATURE-----".to_string()]);
+    h.insert("Hash".to_string(), vec!["MD5".to_string()]);
+    let r = ctx.guarded("C16/armor", replay, || {
+        let mut buf = vec![];
+        m.to_armored_writer(&mut buf, ArmorOptions { headers: Some(&h), include_checksum: false }).map(|_| buf)
+    });
+    ctx.eval();
+    let Some(Ok(buf)) = r else {
+        if r.is_some() {
+            ctx.violation("C16/armor/error/with-options", "to_armored_writer with headers failed", replay());
+        }
+        return;
+    };
+    let Ok(d2) = String::from_utf8(buf) else {
+        ctx.violation("C16/armor/not-utf8", "armored document is not UTF-8", replay());
+        return;
+    };
+    match rfc::armor::csf_parse(&d2) {
+        Err(e) => ctx.violation(
+            "C16/framing/reference-rejects/with-options",
+            format!("conforming splitter rejects document written with armor headers: {e}"),
+            replay(),
+        ),
+        Ok(p) => {
+            let ok = match rfc::armor::armor_parse_strict(&p.sig_armor) {
+                Ok(pa) => pa.crc.is_none() && pa.headers.len() == 2 && pa.typ == "PGP SIGNATURE",
+                Err(_) => false,
+            };
+            if !ok || strip_final_cr(&p.text) != strip_final_cr(t) {
+                ctx.violation(
+                    "C16/framing/with-options-differs",
+                    format!("document written with armor headers / without checksum splits differently; t = {}", dbg_str(t)),
+                    replay(),
+                );
+            }
+        }
+    }
+    let r = ctx.guarded("C16/parse", replay, || CleartextSignedMessage::from_string(&d2));
+    ctx.eval();
+    match r {
+        None => {}
+        Some(Err(e)) => ctx.violation(
+            "C16/roundtrip/parse-error/with-options",
+            format!("from_string rejects the document written with armor headers: {e}; t = {}", dbg_str(t)),
+            replay(),
+        ),
+        Some(Ok((m4, hd))) => {
+            if m4 != *m2 || hd != h {
+                ctx.violation(
+                    "C16/roundtrip/with-options-differs",
+                    format!("document written with armor headers reads back differently (headers {hd:?}); t = {}", dbg_str(t)),
+                    replay(),
+                );
+            }
+        }
+    }
+}
+
+// ------------------------------------------------------------------------------------------
+// workload
+
+/// all distinct lines made of at most `k` tokens
+fn lines_of(k: usize) -> Vec<String> {
+    let mut v: Vec<String> = vec![String::new()];
+    for _ in 0..k {
+        let mut n = vec![];
+        for l in &v {
+            for t in TOKENS {
+                n.push(format!("{l}{t}"));
+            }
+        }
+        v = n;
+    }
+    v.sort();
+    v.dedup();
+    v
+}
+
+fn assemble(lines: &[&str], sep: &str, final_nl: bool) -> String {
+    let mut s = lines.join(sep);
+    if final_nl {
+        s.push_str(sep);
+    }
+    s
+}
 
 pub fn run(ctx: &mut Ctx) {
-    ctx.inconclusive("monitor not built yet");
+    // A panic in the monitor's own code (library calls are guarded separately) is a harness fault:
+    // say where, and end the shard without a report so that the driver marks the run inconclusive
+    // instead of silently losing the rest of this shard's cases.
+    if let Err(p) = crate::core::guard(|| run_inner(ctx)) {
+        println!("C16 harness fault: panic in the monitor: {} at {}", p.msg, p.loc);
+        std::process::exit(101);
+    }
+}
+
+fn run_inner(ctx: &mut Ctx) {
+    describe_case("C16 key generation");
+    let env = Env::new();
+    let l1 = lines_of(1);
+    let l2 = lines_of(2);
+    ctx.extra.insert(
+        "grammar".into(),
+        json!({"tokens": TOKENS, "lines_of_le1_token": l1.len(), "lines_of_le2_tokens": l2.len(),
+               "separators": ["LF", "CRLF", "lone CR"], "final_line_ending": [false, true]}),
+    );
+    let ncfg = env.cfgs.len();
+    let is_narrow = |x: &String| l1.binary_search(x).is_ok();
+
+    // Family A runs in recorded-digest mode (no public-key operation; the digest reaching the
+    // signing / verifying primitive is compared with the reference digest). Configuration and
+    // whether the binding edits are applied are a fixed function of the text.
+    let edit_every: u64 = ctx.qt(6, 3);
+    let pick = |t: &str| -> (usize, Opt) {
+        let h = hash64(&("pick", t));
+        (
+            (h / 7 % ncfg as u64) as usize,
+            Opt { dry: true, edit_positions: if h % edit_every == 0 { 10 } else { 0 }, api_variants: h % 97 == 0, cover: true },
+        )
+    };
+    let styles = |lines: &[&str], f: &mut dyn FnMut(String)| {
+        for sep in SEPS {
+            for fin in [false, true] {
+                f(assemble(lines, sep, fin));
+            }
+        }
+    };
+
+    // ---- A1: the empty text and every single line of <= 2 tokens --------------------------------
+    if ctx.mine() {
+        describe_case("C16 A1 empty text and single lines");
+        for t in ["- x \t\n-----BEGIN PGP SIGNATURE-----\r\nFrom a\n", "a\r", "\u{e9} \r\n\n--"] {
+            if let Ok(b) = build(&env, &env.cfgs[0], false, t, ChaCha8Rng::seed_from_u64(1)) {
+                ctx.sample(json!({
+                    "family": "A", "t": t, "cfg": env.cfgs[0].name,
+                    "rfc_signed_form": rfc::armor::csf_signed_form(t),
+                    "signed_text()": b.msg.signed_text(),
+                    "document": b.msg.to_armored_string(ArmorOptions::default()).unwrap_or_default(),
+                }));
+            }
+        }
+        for cfg in 0..ncfg {
+            check_text(ctx, &env, "A1", "", cfg, Opt { dry: true, edit_positions: 8, api_variants: true, cover: true });
+        }
+        for l in &l2 {
+            describe_case(&format!("C16 A1 line {l:?}"));
+            styles(&[l], &mut |t| {
+                let (cfg, mut o) = pick(&t);
+                o.edit_positions = 12;
+                check_text(ctx, &env, "A1", &t, cfg, o);
+            });
+        }
+    }
+    // ---- A2: two lines of <= 2 tokens each ------------------------------------------------------
+    for a in &l2 {
+        if !ctx.mine() {
+            continue;
+        }
+        describe_case(&format!("C16 A2 first line {a:?}"));
+        for b in &l2 {
+            describe_case(&format!("C16 A2 lines {a:?} {b:?}"));
+            styles(&[a, b], &mut |t| {
+                let (cfg, o) = pick(&t);
+                check_text(ctx, &env, "A2", &t, cfg, o);
+            });
+        }
+    }
+    // ---- A3: three lines, at most one of them with 2 tokens (the others <= 1 token) -------------
+    for wide_pos in [usize::MAX, 0, 1, 2] {
+        let set = |p: usize| -> &Vec<String> {
+            if p == wide_pos {
+                &l2
+            } else {
+                &l1
+            }
+        };
+        for a in set(0) {
+            if !ctx.mine() {
+                continue;
+            }
+            describe_case(&format!("C16 A3 wide line at {wide_pos} first line {a:?}"));
+            for b in set(1) {
+                describe_case(&format!("C16 A3 wide line at {wide_pos}, lines {a:?} {b:?} *"));
+                for c in set(2) {
+                    if wide_pos != usize::MAX && is_narrow([a, b, c][wide_pos]) {
+                        continue; // enumerated by the all-narrow pass
+                    }
+                    styles(&[a, b, c], &mut |t| {
+                        let (cfg, o) = pick(&t);
+                        check_text(ctx, &env, "A3", &t, cfg, o);
+                    });
+                }
+            }
+        }
+    }
+    // ---- A5: four (quick + thorough) and five (thorough) lines of <= 1 token --------------------
+    for nl in 4..=ctx.qt(4usize, 5usize) {
+        for a in &l1 {
+            for b in &l1 {
+                if !ctx.mine() {
+                    continue;
+                }
+                describe_case(&format!("C16 A5 {nl} lines, first lines {a:?} {b:?}"));
+                ctx.cover(&("A5-group", nl, a, b));
+                let rest = l1.len().pow(nl as u32 - 2);
+                for idx in 0..rest {
+                    if idx % 14 == 0 {
+                        describe_case(&format!("C16 A5 {nl} lines, first lines {a:?} {b:?}, rest #{idx}"));
+                    }
+                    let mut lines: Vec<&str> = vec![a, b];
+                    let mut x = idx;
+                    for _ in 2..nl {
+                        lines.push(&l1[x % l1.len()]);
+                        x /= l1.len();
+                    }
+                    styles(&lines, &mut |t| {
+                        let h = hash64(&("pick", &t));
+                        let o = Opt { dry: true, edit_positions: if h % 64 == 0 { 8 } else { 0 }, api_variants: false, cover: nl == 4 };
+                        check_text(ctx, &env, "A5", &t, (h / 7 % ncfg as u64) as usize, o);
+                    });
+                }
+            }
+        }
+    }
+    // ---- A4 (thorough): three lines of <= 2 tokens each, the rest of the complete space ---------
+    if !ctx.quick() {
+        for a in &l2 {
+            for b in &l2 {
+                if !ctx.mine() {
+                    continue;
+                }
+                describe_case(&format!("C16 A4 first lines {a:?} {b:?}"));
+                ctx.cover(&("A4-group", a, b));
+                for (ci, c) in l2.iter().enumerate() {
+                    if ci % 16 == 0 {
+                        describe_case(&format!("C16 A4 lines {a:?} {b:?} #{ci}.."));
+                    }
+                    let wide = [a, b, c].iter().filter(|x| !is_narrow(x)).count();
+                    if wide <= 1 {
+                        continue; // in A3
+                    }
+                    styles(&[a, b, c], &mut |t| {
+                        let h = hash64(&("pick", &t));
+                        let o = Opt { dry: true, edit_positions: if h % 512 == 0 { 6 } else { 0 }, api_variants: false, cover: false };
+                        check_text(ctx, &env, "A4", &t, (h / 7 % ncfg as u64) as usize, o);
+                    });
+                }
+            }
+        }
+    }
+
+    // ---- family C: real public-key crypto, every configuration on every text --------------------
+    for nl in 1..=ctx.qt(2usize, 3usize) {
+        let total = l1.len().pow(nl as u32);
+        for idx in 0..total {
+            if !ctx.mine() {
+                continue;
+            }
+            let mut lines: Vec<&str> = vec![];
+            let mut x = idx;
+            for _ in 0..nl {
+                lines.push(&l1[x % l1.len()]);
+                x /= l1.len();
+            }
+            describe_case(&format!("C16 C lines {lines:?}"));
+            styles(&lines, &mut |t| {
+                let h = hash64(&("pickC", &t));
+                for cfg in 0..ncfg {
+                    describe_case(&format!("C16 C text {} cfg {cfg}", dbg_str(&t)));
+                    let o = Opt { dry: false, edit_positions: if nl <= 2 { 8 } else { 4 }, api_variants: h % 13 == 0, cover: true };
+                    check_text(ctx, &env, "C", &t, cfg, o);
+                }
+            });
+        }
+    }
+
+    // ---- family B: larger random texts (0..8 lines, mixed line endings), both modes -------------
+    let ngroups = ctx.qt(600u64, 10_000u64);
+    for g in 0..ngroups {
+        if !ctx.mine() {
+            continue;
+        }
+        for j in 0..20u64 {
+            let i = g * 20 + j;
+            let mut rng = ctx.rng("B", i);
+            let t = random_text(&mut rng);
+            describe_case(&format!("C16 B random text #{i}"));
+            let cfg = (i % ncfg as u64) as usize;
+            let o = Opt { dry: i % 3 != 0, edit_positions: 16, api_variants: i % 5 == 0, cover: true };
+            check_text(ctx, &env, "B", &t, cfg, o);
+            if i < 3 {
+                ctx.sample(json!({"family": "B", "t": dbg_str(&t), "cfg": env.cfgs[cfg].name, "classes": text_classes(&t)}));
+            }
+        }
+    }
+
+    ctx.tally("cpu_ms_all_shards", (crate::core::thread_cpu_s() * 1000.0) as u64);
+    ctx.exhaustive = true;
+}
+
+fn random_text(rng: &mut ChaCha8Rng) -> String {
+    let nl = rng.gen_range(0..=8usize);
+    let mut s = String::new();
+    for i in 0..nl {
+        let ntok = rng.gen_range(0..=4usize);
+        for _ in 0..ntok {
+            match rng.gen_range(0..10) {
+                0 => {
+                    for _ in 0..rng.gen_range(1..6) {
+                        s.push((b'a' + rng.gen_range(0..26u8)) as char);
+                    }
+                }
+                1 => s.push_str(["\u{e9}", "\u{2028}", "\u{1F600}", "\u{85}", "\u{0c}", "\u{0b}"][rng.gen_range(0..6)]),
+                2 => s.push('\r'),
+                _ => s.push_str(TOKENS[rng.gen_range(0..TOKENS.len())]),
+            }
+        }
+        let last = i == nl - 1;
+        let e = rng.gen_range(0..10);
+        if last {
+            s.push_str(match e {
+                0..=3 => "",
+                4..=6 => "\n",
+                7..=8 => "\r\n",
+                _ => "\r",
+            });
+        } else {
+            s.push_str(match e {
+                0..=4 => "\n",
+                5..=7 => "\r\n",
+                8 => "\r\r\n",
+                _ => "\r",
+            });
+        }
+    }
+    s
 }
